@@ -205,6 +205,7 @@ func (e *Engine) initExterns() {
 		return Sc{c.uf("errtext", SStr, iv.Tag, iv.ID)}
 	}}
 
+	e.initAtomics()
 	for _, p := range []string{
 		"strings.Contains", "strings.HasPrefix", "strings.HasSuffix", "strings.Index", "strings.IndexByte", "strings.LastIndex",
 		"strings.ToLower", "strings.ToUpper", "strings.TrimSpace", "strings.Trim", "strings.TrimPrefix", "strings.TrimSuffix",
